@@ -703,22 +703,21 @@ impl FdlActiveStation {
             current_address + 1
         };
 
-        if next_address >= next_station && next_station > self.p.address {
-            // We have reached the end of the GAP, enter waiting state.
-            GapState::Waiting { rotation_count: 0 }
-        } else if next_address == next_station && next_station == self.p.address {
-            // We have reached the end of the GAP, enter waiting state (NS==TS case).
-            GapState::Waiting { rotation_count: 0 }
-        } else if next_address >= next_station
-            && next_station < self.p.address
-            && next_address < self.p.address
-        {
-            // We have reached the end of the GAP, enter waiting state (wrap-around GAP case).
-            GapState::Waiting { rotation_count: 0 }
+        // The GAP are all addresses strictly between TS and NS.  When NS is not greater than TS,
+        // the GAP wraps around at HSA (this includes the NS==TS case where we are alone).
+        let in_gap = if next_station > self.p.address {
+            next_address > self.p.address && next_address < next_station
         } else {
+            next_address > self.p.address || next_address < next_station
+        };
+
+        if in_gap {
             GapState::DoPoll {
                 current_address: next_address,
             }
+        } else {
+            // We have reached the end of the GAP, enter waiting state.
+            GapState::Waiting { rotation_count: 0 }
         }
     }
 
